@@ -28,7 +28,7 @@ ASSUMPTIONS = ["alpha, cover distances from scipy NNLS with certificates",
 N = {"quick": 260, "thorough": 8000}
 REQUIRE = {"quick": {"smallmij_events": 3000, "delta_events": 200, "cover_decisive_true": 200,
                      "cover_decisive_false": 200, "f1_events": 300, "f1_monotone_pairs": 300,
-                     "unequal_alpha_cones": 60, "hv_events": 24, "uncovered_events": 100, "integer_dtype_value_sets": 20, "non_unit_row_cones": 20}}
+                     "unequal_alpha_cones": 60, "hv_events": 24, "uncovered_events": 100, "integer_dtype_value_sets": 20, "non_unit_row_cones": 20, "huge_magnitude_value_sets": 15}}
 TIMEOUT = {"quick": 900, "thorough": 5400}
 
 D1_W = [[1, 0, 0], [0, 1, 0], [0, -0.6, 0.8]]
@@ -375,6 +375,9 @@ def shard(mon, tier, rng, shard_no, nshards):
             mon.count("non_unit_row_cones")
         W = order.ordering_cone.W
         scale = gen.rand_scale(rng)
+        if it % 7 == 5:
+            scale = float(10 ** rng.uniform(5, 7))  # objectives that are not standardised: values around 1e6 (seeded/U05)
+            mon.count("huge_magnitude_value_sets")
         X = value_set(rng, m, W, int(rng.integers(2, 41 if it % 4 else 13)), scale)
         if it % 5 == 4:
             # integer-typed value arrays (e.g. raw lattice data): the metrics must not depend on the dtype
